@@ -69,6 +69,16 @@ func srvWorker(raw json.RawMessage) interface{} {
 	env.srv.AddGraph(ctx, &gripql.GraphID{Graph: "g"})
 	if req.Populated {
 		fg := fixedGraph()
+		// the same field names holding every other JSON kind: null, scalar where a container is expected and vice versa
+		odd := []map[string]interface{}{
+			{"tags": nil, "n": nil, "name": nil, "w": nil}, {"tags": "notalist", "n": "s", "name": []interface{}{}, "w": "x"},
+			{"tags": 5.0, "n": 1.5, "name": map[string]interface{}{}, "w": true}, {"tags": map[string]interface{}{"0": "z"}, "n": []interface{}{nil, map[string]interface{}{"k": nil}}, "name": 7.0, "w": []interface{}{1.0}},
+			{"tags": []interface{}{nil}, "n": map[string]interface{}{"k": map[string]interface{}{"z": nil}}, "name": true, "w": map[string]interface{}{}},
+		}
+		for i, d := range odd {
+			fg.V = append(fg.V, tVertex{ID: fmt.Sprintf("odd%d", i), Label: "P", Data: d})
+			fg.E = append(fg.E, tEdge{ID: fmt.Sprintf("oe%d", i), Label: "knows", From: "a", To: fmt.Sprintf("odd%d", i), Data: d})
+		}
 		for _, v := range fg.V {
 			s, _ := structpb.NewStruct(normArg(v.Data).(map[string]interface{}))
 			env.srv.AddVertex(ctx, &gripql.GraphElement{Graph: "g", Vertex: &gripql.Vertex{Gid: v.ID, Label: v.Label, Data: s}})
@@ -183,6 +193,15 @@ func hostileProgs(rng *rand.Rand, n int) [][]tStmt {
 			out = append(out, []tStmt{{Op: "V"}, {Op: "as", Str: "m1"}, pr, f})
 			out = append(out, []tStmt{{Op: "E"}, {Op: "as", Str: "m1"}, pr, f, {Op: "as", Str: "m2"}, {Op: "limit", N: 3}})
 		}
+	}
+	// marks taken on null travelers, then selected / read
+	for _, no := range nullOps {
+		out = append(out,
+			[]tStmt{{Op: "V"}, {Op: "as", Str: "x"}, {Op: no, Strs: []string{"nolabel"}}, {Op: "as", Str: "y"}, {Op: "select", Strs: []string{"x", "y"}}},
+			[]tStmt{{Op: "V"}, {Op: no}, {Op: "as", Str: "y"}, {Op: "select", Strs: []string{"y"}}},
+			[]tStmt{{Op: "V"}, {Op: no, Strs: []string{"nolabel"}}, {Op: "as", Str: "y"}, {Op: "out"}, {Op: "select", Strs: []string{"y", "y"}}},
+			[]tStmt{{Op: "V"}, {Op: no, Strs: []string{"nolabel"}}, {Op: "as", Str: "y"}, {Op: "render", Tpl: map[string]interface{}{"a": "$y.name"}}},
+			[]tStmt{{Op: "V"}, {Op: no, Strs: []string{"nolabel"}}, {Op: "as", Str: "y"}, {Op: "has", Has: &hExpr{Kind: "cond", Key: "$y.name", Op: "eq", Arg: "x"}}})
 	}
 	// steps on unloaded elements
 	for _, f := range follow {
